@@ -84,10 +84,15 @@ TRead == /\ IsEvent("Read")
          /\ ProjOK
          /\ UNCHANGED <<heap, files>>
 
+\* Verdicts are judged under the caller discipline of C15 / C20 only: the first decode operation on an entry (a check
+\* or extract after some bytes were read, or after an extract whose output file could not be created, starts a new
+\* decoder in the middle of the stored stream - what that yields is not a property of the member).  Whether a fixed
+\* script stays inside the discipline depends on the file system's answers, so it is decided here, on the execution.
+FirstDecode == r.ctype # "NORMAL" \/ arc[r.cur].kind # "file" \/ done[r.cur] = "none"
 TCheck == /\ IsEvent("Check")
           /\ Consumed >= 0
           /\ CheckWith(Consumed, AllocOk, EofNow)
-          /\ Chk("check.res", Ev.res = CheckResult(AllocOk))
+          /\ Chk("check.res", IF FirstDecode THEN Ev.res = CheckResult(AllocOk) ELSE TRUE)
           /\ ProjOK
           /\ UNCHANGED <<heap, files>>
 
@@ -99,7 +104,7 @@ FsOf == IF r.ctype = "NORMAL" /\ arc[r.cur].kind = "dir"
 TExtract == /\ IsEvent("Extract")
             /\ Consumed >= 0
             /\ ExtractWith(FsOf, Consumed, AllocOk, EofNow)
-            /\ Chk("extract.res", Ev.res = ExtractResult(FsOf, AllocOk))
+            /\ Chk("extract.res", IF FirstDecode THEN Ev.res = ExtractResult(FsOf, AllocOk) ELSE TRUE)
             /\ ProjOK
             /\ UNCHANGED <<heap, files>>
 
